@@ -17,7 +17,16 @@ Arguments N.leb : simpl never.
 Arguments N.ltb : simpl never.
 Arguments N.eqb : simpl never.
 
-Notation hgen := (gen rule hb_defs hb_ws).
+(* the rule postcondition carried by the derivations: inside a raw block the
+   closing tag starts exactly where the raw text ends (proved on the
+   interpreter in Proofs/RawBlockAdjacent.v) *)
+Definition rb_adj (l : list tok) : Prop :=
+  forall a s1 e1 s2 e2 b,
+    l = a ++ (R_raw_block_text, s1, e1) :: (R_raw_block_end, s2, e2) :: b -> s2 = e1.
+Definition hb_RP (r : rule) (at_ : atomicity) (q : bool) (ts : list tok) : Prop :=
+  r = R_raw_block -> at_ = ANon -> q = false -> rb_adj (filter not_escape ts).
+
+Notation hgen := (gen rule hb_defs hb_ws hb_RP).
 Notation tr := (tree rule).
 Notation hforest := (forest_in rule).
 
@@ -29,7 +38,7 @@ Qed.
 
 Lemma hprogress f e at_ q p p' F :
   nullable_e rule hb_nl e = false -> hgen f e at_ q p p' F -> p < p'.
-Proof. apply (gen_progress rule hb_defs hb_ws hb_nl hb_nl_ok). Qed.
+Proof. apply (gen_progress rule hb_defs hb_ws hb_RP hb_nl hb_nl_ok). Qed.
 
 Lemma hle f e at_ q p p' F : hgen f e at_ q p p' F -> p <= p'.
 Proof. intros H. eapply forest_in_le, gen_forest; eassumption. Qed.
@@ -88,7 +97,7 @@ Lemma no_escape_tokens f e at_ q p p' F :
   filter not_escape (flats F) = flats F.
 Proof.
   intros Ho H.
-  pose proof (closed_sound rule hb_defs hb_ws esc_free esc_free_closed _ _ _ _ _ _ _ Ho H) as HF.
+  pose proof (closed_sound rule hb_defs hb_ws hb_RP esc_free esc_free_closed _ _ _ _ _ _ _ Ho H) as HF.
   induction (flats F) as [|t l IH]; [reflexivity|]. inversion HF; subst.
   cbn [filter]. unfold not_escape at 1, is_rule. rewrite (esc_free_not_escape _ H2). cbn [negb].
   f_equal. apply IH. assumption.
@@ -633,7 +642,7 @@ Proof.
             nullable_e rule hb_nl (snd (hb_defs r)) = false).
   { intros r a b Hr. assert (r = R_escape) as -> by (destruct r; try discriminate; reflexivity).
     intros He. destruct a, b; try discriminate He; split; vm_compute; reflexivity. }
-  pose proof (gen_cforest rule hb_defs hb_ws is_esc_rule hb_nl hb_nl_ok HC _ _ _ _ _ _ _ H) as Hcf.
+  pose proof (gen_cforest rule hb_defs hb_ws hb_RP is_esc_rule hb_nl hb_nl_ok HC _ _ _ _ _ _ _ H) as Hcf.
   destruct (cforest_sorted rule is_esc_rule _ _ _ Hcf) as [Hs Hb].
   split; [exact Hs|].
   apply Forall_forall. intros t Ht Hr. rewrite Forall_forall in Hb.
@@ -645,7 +654,7 @@ Lemma only_escapes f e at_ q p p' F :
   only rule hb_defs is_esc_rule 80 e at_ q = true -> hgen f e at_ q p p' F ->
   filter not_escape (flats F) = [].
 Proof.
-  intros Ho H. pose proof (only_sound rule hb_defs hb_ws is_esc_rule _ _ _ _ _ _ _ _ Ho H) as HF.
+  intros Ho H. pose proof (only_sound rule hb_defs hb_ws hb_RP is_esc_rule _ _ _ _ _ _ _ _ Ho H) as HF.
   induction (flats F) as [|t l IH]; [reflexivity|]. inversion HF; subst.
   cbn [filter]. unfold not_escape at 1, is_rule. unfold is_esc_rule in H2. rewrite H2. cbn [negb]. apply IH. assumption.
 Qed.
